@@ -114,12 +114,12 @@ class Evaluator:
             if any(v is UNKNOWN for v in vals):
                 return UNKNOWN
             return tuple(vals) if not isinstance(e, ast.Set) else set(vals)
-        if isinstance(e, ast.Call) and isinstance(e.func, ast.Name) and e.func.id in ("len", "int", "bool", "min", "max", "abs"):
+        if isinstance(e, ast.Call) and isinstance(e.func, ast.Name) and e.func.id in ("len", "int", "bool", "min", "max", "abs", "round", "float"):
             vals = [self.ev(a, depth) for a in e.args]
             if any(v is UNKNOWN for v in vals) or e.keywords:
                 return UNKNOWN
             try:
-                return {"len": len, "int": int, "bool": bool, "min": min, "max": max, "abs": abs}[e.func.id](*vals)
+                return {"len": len, "int": int, "bool": bool, "min": min, "max": max, "abs": abs, "round": round, "float": float}[e.func.id](*vals)
             except Exception:
                 return UNKNOWN
         if isinstance(e, ast.Call) and isinstance(e.func, ast.Attribute) and e.func.attr in ("bit_length", "bit_count") and not e.args:
